@@ -83,6 +83,11 @@ def cases(ctx):
         vals = [None if rng.random() < p_none else (rng.choice(I32) if rng.random() < 0.5 else rng.randint(-(2**31), 2**31 - 1))
                 for _ in range(ln)]
         yield {"kind": "ret_arr", "address": pick(rng, I32), "values": vals}
+    # long arrays (an entanglement-result array has 10 entries per pair): lengths around and beyond 2^16, by seed
+    for ln in ([65535, 65536, 65537, 70000] if ctx.quick else [65535, 65536, 65537, 70000, 2**17 + 1, 2**18, 2**20 + 5]):
+        if mine():
+            yield {"kind": "ret_arr_long", "address": pick(rng, I32), "length": ln, "p_none": rng.choice([0.1, 0.5, 0.9]),
+                   "seed": rng.randrange(2**31)}
     for ln in (4, 64):
         if mine():
             yield {"kind": "threaded", "threads": 4, "length": ln, "rounds": 1500 if ctx.quick else 20000}
@@ -131,7 +136,29 @@ def _threaded(ctx, case):
     ctx.case(case, True)
 
 
+def _long_array(ctx, case):
+    import random
+    from netqasm.backend import messages as M
+    r = random.Random(case["seed"])
+    vals = [None if r.random() < case["p_none"] else r.randint(-(2**31), 2**31 - 1) for _ in range(case["length"])]
+    back = M.deserialize_return_msg(bytes(M.ReturnArrayMessage(address=case["address"], values=list(vals))))
+    ctx.count("long_arrays_roundtripped")
+    ctx.count("undefined_entries_checked", sum(v is None for v in vals))
+    if type(back) is not M.ReturnArrayMessage or back.address != case["address"]:
+        ctx.fail(case, f"ret_arr of {len(vals)} entries comes back as {type(back).__name__} @ {getattr(back, 'address', None)}")
+    elif back.values != vals:
+        if len(back.values) != len(vals):
+            what = f"{len(back.values)} entries"
+        else:
+            i = next(j for j, (a, b) in enumerate(zip(vals, back.values)) if a != b)
+            what = f"entry {i} = {back.values[i]!r} instead of {vals[i]!r}"
+        ctx.fail(case, f"ret_arr of {len(vals)} entries comes back with {what}")
+    ctx.case(case, True)
+
+
 def run_case(ctx, case):
+    if case["kind"] == "ret_arr_long":
+        return _long_array(ctx, case)
     from netqasm.backend import messages as M
     kind = case["kind"]
     if kind == "threaded":
